@@ -775,3 +775,66 @@ mut("C16", "r10-blocksize-narrowed-untested", "container/container.go",
     "\tif blockSize > uint64(c.Length()) {\n\t\treturn nil, errors.New(\"container: not enough data to return\")\n\t}\n", "", "C16-R10|container.(*Container).GetNextBlock / uint64 -> int")
 mut("C10", "r5-unpack16-narrowed-untested", "formats/varint/varint.go",
     "\tif n > 65535 {\n\t\treturn 0, 0, errors.New(\"varint: encoded integer greater than 65535 (uint16)\")\n\t}\n", "", "C10-R5|formats/varint.Unpack16 / uint64 -> uint16")
+
+# ---- round 4 (seeded changes -d1/-d2): the seed edits themselves, taken from the stored patches ------------
+def from_patch(prop, name, seed, expect, comment="", rebased=False):
+    """one mutant whose edits are the hunks of /verif/seeded/<seed>/patch.diff (old = context+removed, new = context+added)"""
+    import re as _re
+    pf = os.path.join(V, "seeded", seed, "patch_rebased.diff" if rebased else "patch.diff")
+    edits, cur, file = [], None, None
+    for line in open(pf).read().split("\n"):
+        if line.startswith("+++ b/"):
+            file = line[6:]
+        elif line.startswith("@@"):
+            cur = {"file": file, "old": "", "new": ""}
+            edits.append(cur)
+        elif cur is not None and not line.startswith("\\"):
+            if line.startswith("-") and not line.startswith("---"):
+                cur["old"] += line[1:] + "\n"
+            elif line.startswith("+") and not line.startswith("+++"):
+                cur["new"] += line[1:] + "\n"
+            elif line.startswith(" "):
+                cur["old"] += line[1:] + "\n"
+                cur["new"] += line[1:] + "\n"
+            elif line.startswith("diff --git"):
+                cur = None
+    edits = [e for e in edits if e["old"] != e["new"]]
+    M.append({"name": f"{prop}-{name}", "prop": prop, "expect": expect if isinstance(expect, list) else [expect],
+              "edits": edits, "canary": False, "comment": comment or ("round-4 seed " + seed)})
+
+from_patch("C02", "r13-flush-threshold-inclusive", "C02-d1", "C02-R13|database.(*Interface).flushWriteCache / returns without writing")
+from_patch("C02", "r14-delete-mark-before-apply", "C02-d2", "C02-R14|database.(*Interface).Delete / deletion mark")
+from_patch("C04", "r10-replace-keeps-old-value", "C04-d2", "C04-R10|config.ReplaceConfig$1")
+from_patch("C05", "r10-start-keeps-old-context", "C05-d1", "C05-R10|modules.(*Module).start")
+from_patch("C05", "r11-ctrlfn-flag-not-deferred", "C05-d2", "C05-R11|modules.(*Module).startCtrlFn")
+from_patch("C06", "r12-stop-error-overwritten", "C06-d1", "C06-R12|modules.stopModules / returned error accumulator")
+from_patch("C06", "r11-api-panic-report-conditional", "C06-d2", "C06-R11|api.(*mainHandler).handle$2")
+from_patch("C07", "r8-finish-signal-before-reset", "C07-d1", "C07-R8|modules.(*Task).executeWithLocking$1 / finish signal")
+from_patch("C07", "r9-schedule-as-overtime", "C07-d2", "C07-R9|modules.(*Task).Schedule / addToSchedule(overtime)")
+from_patch("C09", "r10-load-reports-compression-id", "C09-d2", "C09-R10|formats/dsd.Load / return")
+from_patch("C10", "r6-prependlength-bare-empty", "C10-d2", "C10-R6|formats/varint.PrependLength / return")
+from_patch("C11", "r10-escape-with-percent-q", "C11-d1", "C11-R10|database/query.escapeString / return", rebased=True)
+from_patch("C11", "r10-first-token-range-loop", "C11-d2", "C11-R10|database/query.endOfFirstToken / escape handling")
+mut("C11", "r10-backslash-not-escaped", "database/query/parser.go",
+    "\t\ttoken = strings.ReplaceAll(token, \"\\\\\", \"\\\\\\\\\")\n", "", "C11-R10|database/query.escapeString / return", comment="reverts fix d828010")
+mut("C11", "r10-preptoken-flag-ignored-for-quote", "database/query/parser.go",
+    "\t\tcase escaped:\n\t\t\t// escaped characters are taken literally\n\t\t\tb.WriteByte(text[i])\n\t\t\tescaped = false\n\t\tcase text[i] == '\\\\':\n\t\t\tescaped = true\n\t\tcase text[i] == '\"':\n\t\t\t// unescaped parenthesis only surround the token\n",
+    "\t\tcase text[i] == '\"':\n\t\t\t// parenthesis only surround the token\n\t\t\tescaped = false\n\t\tcase escaped:\n\t\t\t// escaped characters are taken literally\n\t\t\tb.WriteByte(text[i])\n\t\t\tescaped = false\n\t\tcase text[i] == '\\\\':\n\t\t\tescaped = true\n",
+    "C11-R10|database/query.prepToken / escape flag", comment="reverts fix d828010 (escaped quotes dropped again)")
+from_patch("C12", "r10-reset-keeps-session", "C12-d2", "C12-R10|api.authReset / the presented session is deleted")
+from_patch("C13", "r10-unregistered-db-is-notfound", "C13-d1", "C13-R10|database.getDatabase / controller lookup never yields ErrNotFound")
+from_patch("C13", "r11-hashmap-query-leaks-record-lock", "C13-d2", "C13-R11|")
+from_patch("C14", "r9-option-update-exclusive-switch", "C14-d1", "C14-R9|config.handleOptionUpdate")
+from_patch("C15", "r6-low-prio-medium-default", "C15-d1", "C15-R6|modules.(*Module).RunLowPriorityMicroTask")
+from_patch("C15", "r7-panic-error-calls-value", "C15-d2", "C15-R7|")
+from_patch("C16", "r11-peek-zero-is-nil", "C16-d1", "C16-R11|container.(*Container).PeekContainer / nil result")
+from_patch("C17", "r6-unexpected-eof-is-success", "C17-d1", "C17-R6|updater.copyFromZipArchive / error call:io.CopyN")
+from_patch("C17", "r7-unpack-through-limitreader", "C17-d2", "C17-R7|updater.(*File).Unpack / io.LimitReader cap")
+mut("C17", "r7-copyn-cap-silent", "updater/unpacking.go",
+    "\tif _, err := io.ReadFull(fileReader, make([]byte, 1)); err == nil {\n\t\treturn fmt.Errorf(\"file in archive exceeds the maximum unpack size of %d bytes\", MaxUnpackSize)\n\t} else if !errors.Is(err, io.EOF) {\n\t\treturn err\n\t}\n", "",
+    "C17-R7|updater.copyFromZipArchive / io.CopyN cap", comment="reverts fix c902e39")
+from_patch("C18", "r4-scope-case-insensitive", "C18-d1", "C18-R4|database/storage/fstree.(*FSTree).isInScope")
+from_patch("C18", "r3-ensure-bypasses-scope-check", "C18-d2", "C18-R3|utils.(*DirStructure).Ensure / call DirStructure.ensure")
+from_patch("C19", "r10-version-cut-from-whole-path", "C19-d2", "C19-R10|updater.GetIdentifierAndVersion / path parameter")
+from_patch("C01", "r10-mgmt-start-error-shadowed", "C01-d2", "C01-R10|modules.ManageModules")
+from_patch("C03", "r9-crownjewel-read-from-secret-byte", "C03-d2", "C03-R9|database/record.Meta GenCode / flag bytes")
